@@ -53,6 +53,7 @@ const (
 	effRetract
 	effRetractUnknown
 	effComplete
+	effRetractCaseVariant // Retract of a name that differs from a rule's name only in letter case: unknown, a no-op
 )
 
 type vaEvent struct {
@@ -199,7 +200,7 @@ func (w *vaWorld) thenStub(e *ast.ThenScope, dc ast.IDataContext, wm *ast.Workin
 		if w.feat&fRetract == 0 {
 			break
 		}
-		c := verif.Choice("then-effect", w.n+3)
+		c := verif.Choice("then-effect", w.n+4)
 		switch {
 		case c == 0:
 		case c <= w.n:
@@ -208,6 +209,9 @@ func (w *vaWorld) thenStub(e *ast.ThenScope, dc ast.IDataContext, wm *ast.Workin
 		case c == w.n+1:
 			w.events[idx].eff[k] = effRetractUnknown
 			w.defunc.Retract("NoSuchRule")
+		case c == w.n+2:
+			w.events[idx].eff[k] = effRetractCaseVariant
+			w.defunc.Retract(strings.ToLower(w.names[0]))
 		default:
 			w.events[idx].eff[k] = effComplete
 			w.defunc.Complete()
@@ -484,6 +488,7 @@ func vaCheck(w *vaWorld, eng *GruleEngine, res vaResult, first int, preCancelled
 			if !aborted {
 				verif.Assert("C06:each-active-rule-evaluated-exactly-once-per-cycle", c.wCount[r] == 1)
 				verif.Assert("C02:no-active-rule-overlooked-in-a-cycle", c.wCount[r] == 1)
+				verif.Assert("C03:every-active-rule-takes-part-in-conflict-resolution", c.wCount[r] == 1)
 				if w.nListen > 0 {
 					verif.Assert("C06:each-active-rule-reported-exactly-once-per-cycle", c.ev[r] == 1)
 				}
